@@ -40,7 +40,8 @@ Inductive fact : Type :=
 | FRDU   (x : name) (sign : string) (b : string)    (* RD(x) < U(b) ("<")  /  U(b) < RD(x) (">") *)
 | FWRU   (x : name) (sign : string) (b : string)
 | FM     (m1 m2 : mref) (eq : string)
-| FEdge  (x y : endpoint).                          (* connect( x, y ) *)
+| FEdge  (x y : endpoint)                           (* connect( x, y ) of value signals / constants *)
+| FMEdge (x y : name).                              (* connect( x, y ) of two method ports *)
 
 (* the names a fact refers to (relative to its owner) *)
 Definition ep_refs (e : endpoint) : list name := match e with ESig x => [x] | EConst _ => [] end.
@@ -51,6 +52,7 @@ Definition refs (f : fact) : list name :=
   | FSig x | FMeth x | FRead _ x | FWrite _ x | FCall _ x | FRDU x _ _ | FWRU x _ _ => [x]
   | FM m1 m2 _ => mref_refs m1 ++ mref_refs m2
   | FEdge x y => ep_refs x ++ ep_refs y
+  | FMEdge x y => [x; y]
   end.
 
 (* a fact together with the component that owns it *)
@@ -141,6 +143,7 @@ Definition rows_of (g : gfact) : list row :=
   | FRDU x sg b => [["RDU"%string; render (o ++ x); sg; render o; b]]
   | FWRU x sg b => [["WRU"%string; render (o ++ x); sg; render o; b]]
   | FM m1 m2 e => [["M"%string; render_m o m1; render_m o m2; e]]
+  | FMEdge x y => [["adj"%string; render (o ++ x); render (o ++ y)]; ["adj"%string; render (o ++ y); render (o ++ x)]]
   | FEdge x y => [["adj"%string; render_ep o x; render_ep o y]; ["adj"%string; render_ep o y; render_ep o x]] ++
                  map (fun r => ["sig"%string; render (o ++ r)]) (ep_refs x ++ ep_refs y)
   end.
